@@ -37,10 +37,10 @@ func vh_c04_build_show_q() { vc04_build("{{ ", " }}", 2) }
 func vh_c04_build_stmt_q() { vc04_build("{% ", " %}", 2) }
 func vh_c04_build_expr_q() { vc04_build("{{ 7", " }}", 2) }
 func vh_c04_build_var_q()  { vc04_build("{% var a = 5 %}{{ a", " }}", 2) }
-func vh_c04_build_prog_q() { vc04_buildprog("package main\nfunc main() { var a = 3", " }\n", 2) }
+func vh_c04_build_prog_q() { vc04_buildprog("package main\nfunc main() { var a = 3", "; _ = a }\n", 2) }
 
 func vh_c04_build_show_t() { vc04_build("{{ ", " }}", 3) }
 func vh_c04_build_expr_t() { vc04_build("{{ 7", "3 }}", 3) }
 func vh_c04_build_str_t()  { vc04_build("{{ \"a\"", " }}", 3) }
-func vh_c04_build_prog_t() { vc04_buildprog("package main\nfunc main() { var a = 3", " }\n", 3) }
+func vh_c04_build_prog_t() { vc04_buildprog("package main\nfunc main() { var a = 3", "; _ = a }\n", 3) }
 func vh_c04_build_if_t()   { vc04_build("{% if ", " %}x{% end %}", 3) }
